@@ -288,10 +288,11 @@ def ole_property_count(m, variant):
     return pptbin.write_ppt([{"title": "ZB00002", "body": ["ZB00003"]}], extra_streams={"\x05SummaryInformation": ps})
 
 
-OLE_EXT = {"doc": "doc", "doc-docsummary": "doc", "xls": "xls", "ppt": "ppt", "doc-lpstr": "doc", "doc-summary": "doc", "doc-pid0": "doc", "doc-summary-pid0": "doc", "doc-second": "doc"}
+OLE_EXT = {"doc": "doc", "doc-docsummary": "doc", "xls": "xls", "ppt": "ppt", "doc-lpstr": "doc", "doc-summary": "doc", "doc-pid0": "doc", "doc-summary-pid0": "doc", "doc-second": "doc", "doc-sizeword": "doc", "doc-summary-r8-sizeword": "doc", "doc-summary-i4-sizeword": "doc"}
 
 
-@family("ole-vector-length", "doc", variants=("doc", "xls", "ppt", "doc-lpstr", "doc-summary", "doc-pid0", "doc-summary-pid0", "doc-second"), ms=(10, 10**5, 10**7, 0x7FFFFFFF, 0xFFFFFFFF))
+@family("ole-vector-length", "doc", variants=("doc", "xls", "ppt", "doc-lpstr", "doc-summary", "doc-pid0", "doc-summary-pid0", "doc-second", "doc-sizeword", "doc-summary-r8-sizeword", "doc-summary-i4-sizeword"),
+        ms=(10, 10**5, 10**7, 0x7FFFFFFF, 0xFFFFFFFF))
 def ole_vector_length(m, variant):
     """A VT_VECTOR property in a property set with a forged element count: VT_VECTOR|VT_NULL (elements occupy no bytes) or VT_VECTOR|VT_LPSTR."""
     from vf.gen import biff8, docbin, ole2, pptbin
@@ -300,6 +301,13 @@ def ole_vector_length(m, variant):
         variant = "doc"
     else:
         vec = struct.pack("<II", 0x1001, m) + bytes(8)
+    sizeword = None
+    if variant.endswith("-sizeword"):        # the section's own size word is forged too (a guard must measure against the bytes that are there)
+        sizeword, variant = 0x7FFFFFFF, variant[:-9]
+        if variant.endswith("-r8"):
+            vec, variant = struct.pack("<II", 0x1005, m) + bytes(16), variant[:-3]
+        elif variant.endswith("-i4"):
+            vec, variant = struct.pack("<II", 0x1003, m) + bytes(16), variant[:-3]
     pid = 13
     if variant.endswith("-pid0"):           # the forged vector sits under property id 0 (the id of the dictionary property)
         pid, variant = 0, variant[:-5]
@@ -312,7 +320,7 @@ def ole_vector_length(m, variant):
     for pid_, raw in items:
         table += struct.pack("<II", pid_, (off + len(values)) if raw or pid_ != 5 else 0x7FFFFFF0)
         values += raw
-    section = struct.pack("<II", off + len(values), len(items)) + table + values
+    section = struct.pack("<II", sizeword if sizeword is not None else off + len(values), len(items)) + table + values
     fmtid = getattr(ole2, "FMTID_DOCSUMMARY", bytes.fromhex("02d5cdd59c2e1b10939708002b2cf9ae"))
     ps = struct.pack("<HHI", 0xFFFE, 0, 0x00020005) + bytes(16) + struct.pack("<I", 1) + fmtid + struct.pack("<I", 48) + section
     extra = {"\x05DocumentSummaryInformation": ps, "\x05SummaryInformation": ole2.property_set({ole2.PID_TITLE: "t"})}
